@@ -364,6 +364,26 @@ def sequences(seed, pool, k):
                     p["ep"] = "other"
         seq.append(call(typ, ver, bucket, n, t, lists))
         out.append(seq)
+    # the SAME validators again: an honest call for content A, then a call for the same keys in which every partial carries
+    # content B with the signature made over A (what the earlier call aggregated) - or honestly signs B - or repeats A
+    for _ in range(max(4, k // 3)):
+        typ = r.choice(sorted(by_typ))
+        n, t = r.choice(NT_RANDOM)
+        ver, bucket = r.choice(by_typ[typ])
+        nv = r.choice([1, 1, 2])
+        ids = r.sample(range(1, n + 1), r.randint(t, n))
+        domain, _ = combos[(typ, ver, bucket)]
+        mk = lambda **over: [[dict({"idx": i, "by": i, "content": "A", "over": "A", "dom": domain, "ep": "own", "form": "ok", "vi": False}, **over)
+                              for i in ids] for _v in range(nv)]
+        first = call(typ, ver, bucket, n, t, mk())
+        second = call(typ, ver, bucket, n, t, mk(**r.choice([{"content": "B", "over": "A"}, {"content": "B", "over": "A"}, {"content": "B", "over": "B"}, {}])))
+        second["keepvals"] = True
+        seq = [first, second]
+        if r.random() < 0.4:
+            third = call(typ, ver, bucket, n, t, mk(content="B", over="A"))
+            third["keepvals"] = True
+            seq.append(third)
+        out.append(seq)
     return out
 
 
